@@ -367,7 +367,7 @@ impl Engine for NetSim {
         true
     }
     fn wall_limit(&self) -> std::time::Duration {
-        std::time::Duration::from_secs(40)
+        std::time::Duration::from_secs(240)
     }
     fn components_real(&self) -> Vec<&'static str> {
         vec![
